@@ -137,6 +137,11 @@ UNITS = [U_CTRL]
 # `let ret = context.poll();` to the end of the loop body)
 FUNC = "bytecode/src/function.rs"
 
+# errors with an identity: an error that is passed on (`?`, with or without added context) is THE SAME error -- its message and cause chain
+# reach the report; `bail!` / `anyhow!` make a new one, about which nothing is known
+ERR_ID = """#[verifier::external_body] pub struct VErr { x: usize }
+#[verifier::external_body] pub fn verr_new() -> (r: VErr) { unimplemented!() }"""
+
 STEP_SPEC = r"""
 global size_of usize == 8;          // 64-bit target
 #[verifier::external_body] pub fn wrap_usize(x: isize) -> (r: usize) ensures x >= 0 ==> r as int == x as int, x < 0 ==> r as int == x as int + 0x1_0000_0000_0000_0000 { x as usize }
@@ -157,8 +162,12 @@ pub uninterp spec fn until_function(l: Seq<VString>) -> Seq<VString>;
 #[verifier::external_body] pub fn pop_until_function(ctx: &mut Ctx)
     ensures frame_labels(&final(ctx).call_stack) == until_function(frame_labels(&old(ctx).call_stack)), final(ctx).stack == old(ctx).stack, final(ctx).exit_state == old(ctx).exit_state { unimplemented!() }
 // the notification bridge (map / filter callbacks): abstract, may run further functions
-#[verifier::external_body] pub fn run_bridge(ctx: &mut Ctx, b: &BridgeV, cb: &JumpCb) -> (r: Result<(), VErr>)
-    ensures frame_labels(&final(ctx).call_stack) == frame_labels(&old(ctx).call_stack), final(ctx).exit_state == old(ctx).exit_state { unimplemented!() }
+pub uninterp spec fn bridge_err(e: VErr) -> bool;              // an error raised by the bridge itself (wait_for / then / finish)
+#[verifier::external_body] pub fn bridge_wait_for(b: &BridgeV) -> (r: Result<JumpRequest, VErr>) ensures r is Err ==> bridge_err(r->Err_0) { unimplemented!() }
+#[verifier::external_body] pub fn bridge_then(b: &BridgeV, v: ReturnValue) -> (r: Result<bool, VErr>) ensures r is Err ==> bridge_err(r->Err_0) { unimplemented!() }
+#[verifier::external_body] pub fn bridge_finish(b: &BridgeV) -> (r: Result<Option<Primitive>, VErr>) ensures r is Err ==> bridge_err(r->Err_0) { unimplemented!() }
+// the error comes out of a call made through the jump callback
+pub open spec fn from_callback(cb: &JumpCb, e: VErr) -> bool { exists|q: JumpRequest| #[trigger] cb_result(cb, &q) == Err::<ReturnValue, VErr>(e) }
 pub enum Step { Returned(ReturnValue), Next(usize) }
 pub struct Instr { pub id: u8 }
 pub fn instr_get(v: &Vec<Instr>, i: usize) -> (r: Option<&Instr>) ensures i < v@.len() ==> r == Some(&v@[i as int]), i >= v@.len() ==> r is None { if i < v.len() { Some(&v[i]) } else { None } }
@@ -199,7 +208,8 @@ def build_step(repo):
     if text(fpoll["body"]).replace(" ", "") != "&self.exit_state":
         raise Undecided("Ctx::poll is no longer `&self.exit_state`: " + text(fpoll["body"]))
     pre = [
-        Rule("R3", ". with_context ( $$c )", "", why="context text dropped"),
+        Rule("R3", ". with_context ( $$c )", "", why="context text dropped (added context keeps the error and its cause chain)"),
+        Rule("R3", ". context ( $m )", "", why="context text dropped (added context keeps the error and its cause chain)"),
         Rule("R3", "log :: trace ! $a ;", "", why="logging dropped"),
         Rule("R9", "# [ cfg ( feature = \"debug\" ) ] let $$s ;", "", why="cfg(feature = \"debug\") is off in the default build: statement not compiled"),
         Rule("R9", "# [ cfg ( not ( feature = \"debug\" ) ) ]", "", why="cfg(not(feature = \"debug\")): statement compiled in the default build"),
@@ -228,8 +238,11 @@ def build_step(repo):
                 "context.stack == old(context).stack, context.exit_state == old(context).exit_state, instruction_ptr as int == goto_target(ptr_in, *offset), special_scopes@ == old(special_scopes)@ "
                 "decreases *frames_to_pop - verif_p"),
               "{ verif_p += 1 ; $$body }"], why="for over a range -> counted while"),
-        Rule("R9", "loop { let to_call = bridge . wait_for ( ) ? ; let return_value = jump_callback ( & to_call ) ? ; if ! bridge . then ( return_value ) ? { break ; } } if let Some ( final_exit_state ) = bridge . finish ( ) ? { context . push ( final_exit_state ) ; }",
-             "run_bridge ( context , bridge , jump_callback ) ? ;", why="notification bridge protocol abstract (no frame / instruction pointer effect)"),
+        Rule("R6", "bridge . wait_for ( ) ?", "bridge_wait_for ( bridge ) ?", why="notification bridge (map / filter): its three methods are abstract callees; an error of theirs is marked as the bridge's"),
+        Rule("R6", "bridge . then ( return_value ) ?", "bridge_then ( bridge , return_value ) ?", why="notification bridge method abstract"),
+        Rule("R6", "bridge . finish ( ) ?", "bridge_finish ( bridge ) ?", why="notification bridge method abstract"),
+        Rule("R6", "jump_callback ( & to_call )", "jump_callback_call ( jump_callback , & to_call )", why="jump callback abstract (runs the list callback)"),
+        Rule("R2", "loop { let to_call", ["loop", G("invariant *context == *old(context), instruction_ptr == ptr_in, special_scopes@ == old(special_scopes)@, !verif_once,"), "{ let to_call"], why="the bridge loop: the context is not touched while the callbacks run (termination of the bridge protocol is not claimed)"),
         Rule("R1", "special_scopes . push ( * ty ) ;", "special_scopes . push ( copy_scope ( ty ) ) ;", why="SpecialScope is Copy"),
         Rule("R1", "ref x @ Exit :: GotoPopScope", "Exit :: GotoPopScope", why="binding only used by the trace message"),
         Rule("R1", "let old_ptr_location = instruction_ptr ;", "", why="only used by the trace message"),
@@ -238,8 +251,9 @@ def build_step(repo):
     b = translate(b, rules, log, "Function::run[step]")
     b = Rule("R11", "continue ;", [G("proof { assert(frame_labels(&old(context).call_stack).subrange(0, frame_labels(&old(context).call_stack).len() as int) =~= frame_labels(&old(context).call_stack)); }"), "continue ;"], why="").apply(b, log)
     check_closed(b, "Function::run[step]")
+    b = Rule("R3", "Err ( VErr )", "Err ( verr_new ( ) )", why="an error made here (bail!) is a NEW error").apply(b, log)
     gen = header(log, f"{FUNC}: Function::run, loop body after `let ret = context.poll();`; {CTXF}: Ctx::clear_signal, Ctx::push") + \
-        prelude("ctx.rs").replace("ReturnValue(Box<Primitive>)", "ReturnValue(ReturnValue), GotoPushScope(usize, SpecialScope)") + \
+        prelude("ctx.rs").replace("ReturnValue(Box<Primitive>)", "ReturnValue(ReturnValue), GotoPushScope(usize, SpecialScope)").replace("pub struct VErr;", ERR_ID) + \
         "#[verifier::external_body] pub fn copy_scope(t: &SpecialScope) -> (r: SpecialScope) ensures r == *t { unimplemented!() }\n" + \
         "#[verifier::external_body] pub fn usize_to_isize(x: usize) -> (r: Result<isize, VErr>) ensures r is Ok ==> r->Ok_0 as int == x as int { unimplemented!() }\n" + \
         ctx + STEP_SPEC.replace("CLEAR_SIGNAL", render(cs, 0)).replace("OPCODE_CONSTS", " ".join(f"pub const {k.upper()}: u8 = {v};" for k, v in opcode_ids(repo).items())) + f"""
@@ -276,6 +290,7 @@ pub open spec fn next_ok(ret: Exit, c0: Ctx, s0: Seq<SpecialScope>, ptr_in: usiz
 
 //@ OBL C01.run.step
 #[verifier::loop_isolation(false)]
+#[verifier::exec_allows_no_decreases_clause]
 pub fn run_step(ret: &Exit, context: &mut Ctx, ptr_in: usize, instruction_len: usize, special_scopes: &mut Vec<SpecialScope>, jump_callback: &JumpCb, instrs: &Vec<Instr>) -> (r: Result<Step, VErr>)
     requires
         ptr_in < instruction_len, instruction_len <= isize::MAX, instrs@.len() == instruction_len,
@@ -294,6 +309,10 @@ pub fn run_step(ret: &Exit, context: &mut Ctx, ptr_in: usize, instruction_len: u
         ((*ret is NoExit || *ret is PushScope || *ret is PopScope) ==> r is Ok),
         // a failed call / an FFI error is a failure of the caller
         (*ret matches Exit::JumpRequest(jr) ==> ((cb_result(jump_callback, &jr) is Err || cb_result(jump_callback, &jr) matches Ok(ReturnValue::FFIError(_))) <==> r is Err)),
+        // C17: what went wrong inside a called function is what the caller fails with -- the callee's error itself (message, cause chain), not a
+        // re-worded one; likewise under a list.map / list.filter callback
+        (*ret matches Exit::JumpRequest(jr) ==> (cb_result(jump_callback, &jr) matches Err(e) ==> r == Err::<Step, VErr>(e))),
+        ((*ret is BeginNotificationBridge && r is Err) ==> (bridge_err(r->Err_0) || from_callback(jump_callback, r->Err_0))),
         // `ret` ends the function with exactly its value
         (*ret matches Exit::ReturnValue(v) ==> r is Ok && r->Ok_0 == Step::Returned(v)),
         (r matches Ok(Step::Returned(_)) ==> *ret is ReturnValue),
@@ -317,13 +336,13 @@ fn main() {{}}
 """.replace("VERIF_FRAGMENT", render(b, 2))
     obls = ctx_obls(names, ["C01"]) + [
         Obl("CTX.clear_signal", ["C01", "C09"], fn="Ctx::clear_signal", desc="Ctx::clear_signal resets the exit state only"),
-        Obl("C01.run.step", ["C01", "C09", "C19"], fn="run_step",
+        Obl("C01.run.step", ["C01", "C09", "C19", "C17"], fn="run_step",
             desc="Function::run, one iteration after the handler: Goto jumps to exactly ptr+offset (Err outside the function); PushScope opens one frame, PopScope closes one, GotoPopScope(k) closes exactly k and jumps; a call's value is pushed, an FFI error fails; everything else steps to ptr+1"),
     ]
     return gen, obls, log
 
 
-U_STEP = VUnit("c01_run_step", ["C01", "C09", "C19"], "Function::run: what the loop does with each exit state (instruction pointer, frames, call results)", build_step)
+U_STEP = VUnit("c01_run_step", ["C01", "C09", "C19", "C17"], "Function::run: what the loop does with each exit state (instruction pointer, frames, call results)", build_step)
 U_STEP.assumes = ["fragment: the loop body of Function::run after `let ret = context.poll();` is verified as a function of (ret, context, instruction_ptr, special_scopes); `ret` is the context's exit state (Ctx::poll is checked to be `&self.exit_state`); the instruction fetch and `query!` dispatch in front of it are not part of the fragment",
                   "Rc<RefCell<Stack>>: the shared call stack is a field of the model context (single-threaded, no re-entrant borrow)",
                   "the jump callback and the notification bridge are abstract callees; Stack::extend / pop as push / drop_last of frame labels; pop_until_function abstract",
